@@ -11,11 +11,15 @@ import (
 )
 
 type agentExec struct {
-	a     *stun.Agent
-	gen   int
-	evs   []string
-	procN int
+	a      *stun.Agent
+	gen    int
+	evs    []string
+	procN  int
+	stopN  int
+	custom bool
 }
+
+var errCustomStop = errors.New("harness: caller's own stop error")
 
 // the message handed to Agent.Process: only its transaction id may matter, so everything else varies from call to
 // call (all four classes incl. indications, many methods, with and without attributes / raw bytes)
@@ -36,6 +40,10 @@ func (x *agentExec) handler(gen int) stun.Handler {
 		switch {
 		case e.Message != nil:
 			kind = "msg"
+		case x.custom && errors.Is(e.Error, errCustomStop):
+			kind = "stopped"
+		case x.custom && errors.Is(e.Error, stun.ErrTransactionStopped):
+			kind = "stopped-but-the-callers-error-was-lost"
 		case errors.Is(e.Error, stun.ErrTransactionStopped):
 			kind = "stopped"
 		case errors.Is(e.Error, stun.ErrTransactionTimeOut):
@@ -92,6 +100,18 @@ func (e *executor) agentOp(t []string) (string, bool) {
 	case t[1] == "start" && len(t) == 4:
 		return x.result(x.a.Start(tid(t[2]), time.Unix(0, int64(atoi(t[3]))))), true
 	case t[1] == "stop" && len(t) == 3:
+		// Stop(id) is StopWithError(id, ErrTransactionStopped); all three ways of saying it are driven in turn
+		x.stopN++
+		switch x.stopN % 3 {
+		case 1:
+			return x.result(x.a.StopWithError(tid(t[2]), stun.ErrTransactionStopped)), true
+		case 2:
+			// a caller's own error must reach the handler as it is
+			x.custom = true
+			r := x.result(x.a.StopWithError(tid(t[2]), errCustomStop))
+			x.custom = false
+			return r, true
+		}
 		return x.result(x.a.Stop(tid(t[2]))), true
 	case t[1] == "process" && len(t) == 3:
 		x.procN++
